@@ -43,6 +43,7 @@ class Effects:
         self.sets_pc = False
         self.stack = False
         self.regs: set[str] = set()
+        self.reads: set[str] = set()
 
     def merge(self, o: "Effects") -> None:
         self.flags |= o.flags
@@ -50,6 +51,7 @@ class Effects:
         self.sets_pc |= o.sets_pc
         self.stack |= o.stack
         self.regs |= o.regs
+        self.reads |= o.reads
 
 
 UNKNOWN = object()
@@ -262,6 +264,8 @@ class RsEffects:
                         eff.flags |= {"RegName::FC": {"C"}, "RegName::FZ": {"Z"}, "RegName::F": {"C", "Z"}}[v[1]]
                     else:
                         eff.regs.add("<operand>")
+            elif m == "get_reg" and node["args"] and expr_text(node["args"][0]).startswith("RegName::"):
+                eff.reads.add(expr_text(node["args"][0]).split("::")[-1])
             elif m == "set_pc":
                 eff.sets_pc = True
             elif m in ("store",) and recv == "bus":
